@@ -6,7 +6,7 @@ use crate::impl_::St;
 use crate::report::*;
 use serde_json::json;
 
-const KEYS: [(&str, &str); 4] = [("a", "1"), ("b", "\"x\""), ("c", "[1,2]"), ("d", "{\"k\":1}")];
+const KEYS: [(&str, &str); 5] = [("a", "1"), ("b", "\"x\""), ("c", "[1,2]"), ("d", "{\"k\":1}"), ("e", "true")];
 
 fn rules_for(nkeys: usize) -> String {
     let mut s = String::new();
@@ -16,9 +16,12 @@ fn rules_for(nkeys: usize) -> String {
     }
     s.push_str("rule rab {\n  a exists\n  b exists\n}\n");
     s.push_str("rule rany { a exists or c exists }\n");
-    s.push_str(&format!("rule rkeys {{ this[ keys == /^[a-d]$/ ] exists }}\nrule rcount {{\n  let n = count(this.*)\n  %n == {}\n}}\n", nkeys));
+    if nkeys > 4 {
+        s.push_str("rule re { e == true }\n");
+    }
+    s.push_str(&format!("rule rkeys {{ this[ keys == /^[a-e]$/ ] exists }}\nrule rcount {{\n  let n = count(this.*)\n  %n == {}\n}}\n", nkeys));
     s.push_str("rule rkeysb { some this[ keys == \"b\" ] == \"x\" }\n");
-    s.push_str("rule rnone { e !exists }\n");
+    s.push_str("rule rnone { zz !exists }\n");
     s
 }
 
@@ -58,12 +61,13 @@ fn perms<T: Clone>(v: &[T]) -> Vec<Vec<T>> {
     out
 }
 
-fn cases(nkeys: usize) -> Vec<Case> {
+fn cases(nkeys: usize, max_params: usize) -> Vec<Case> {
     let mut out = vec![];
-    // assignment of every key to a source 0..=3 (0 = data); param files used must be non-empty and contiguous 1..m
-    let total = 4usize.pow(nkeys as u32);
+    // assignment of every key to a source 0..=max_params (0 = data); param files used must be non-empty and contiguous 1..m
+    let nsrc = max_params + 1;
+    let total = nsrc.pow(nkeys as u32);
     for code in 0..total {
-        let asg: Vec<usize> = (0..nkeys).map(|k| (code / 4usize.pow(k as u32)) % 4).collect();
+        let asg: Vec<usize> = (0..nkeys).map(|k| (code / nsrc.pow(k as u32)) % nsrc).collect();
         let m = *asg.iter().max().unwrap();
         if m == 0 {
             continue; // no parameter file
@@ -77,7 +81,7 @@ fn cases(nkeys: usize) -> Vec<Case> {
         for po in perms(&params) {
             out.push(Case { data: data.clone(), params: po.clone(), dup: None });
             // a parameter file that is an empty map, at every position among the others (it adds nothing and must lose nothing)
-            if po.len() < 3 {
+            if po.len() < max_params {
                 for at in 0..=po.len() {
                     let mut pe = po.clone();
                     pe.insert(at, vec![]);
@@ -125,9 +129,11 @@ fn statuses_structured(out: &str) -> Option<Vec<(String, St)>> {
 pub fn run(tier: &str) -> i32 {
     let thorough = tier == "thorough";
     let mut rep = Report::new("C17", tier);
-    let nkeys = 4;
+    // quick: four keys; thorough: five
+    let nkeys = if thorough { 5 } else { 4 };
     let rules = rules_for(nkeys);
-    let cs = cases(nkeys);
+    // quick: up to three parameter files; thorough: up to four (every key in its own file)
+    let cs = cases(nkeys, if thorough { 4 } else { 3 });
     // `-2data`: the same data given as two files (every file must get the merged verdicts); `-dir`: the parameter files in
     // a directory that also holds files of other kinds sorting before, between and after them
     let modes = ["plain", "structured", "stdin", "payload-plain", "payload-structured", "plain-2data", "structured-2data", "plain-dir", "structured-dir", "plain-samename", "structured-samename", "plain-dotname", "structured-dotname"];
